@@ -1235,6 +1235,9 @@ class BinaryOpUGen(BasicOpUGen):
     def _optimize_sub(self):
         a, b = self.inputs
 
+        if a is b:  # Non optimizable edge case (see _optimize_addneg).
+            return
+
         if isinstance(b, UnaryOpUGen) and b.operator == 'neg'\
         and len(b._descendants) == 1:
             # // a - b.neg -> a + b
